@@ -123,6 +123,12 @@ impl HashSet {
         // slots. Either way the table is rebuilt by insertion, which keeps the probing
         // invariant and the coupon count consistent with the table.
         let stored = if compact { coupon_count } else { capacity };
+        // Check the length first: the table is not allocated for an image that cannot hold it
+        if cursor.remaining() < stored * 4 {
+            return Err(Error::insufficient_data(format!(
+                "expected {stored} coupons"
+            )));
+        }
         let mut hash_set = HashSet::new(lg_arr);
         for i in 0..stored {
             let coupon = cursor.read_u32_le().map_err(|_| {
